@@ -125,6 +125,17 @@ def run_one(check, seed, tier, i):
         return {"harness_error": tb[-3000:]}
 
 
+class CaseTimeout(BaseException):
+    """A single case exceeded its wall-clock budget (BaseException: not swallowed by the checks)."""
+
+
+CASE_TIMEOUT = int(os.environ.get("HGMON_CASE_TIMEOUT", "180"))
+
+
+def _alarm(signum, frame):
+    raise CaseTimeout()
+
+
 def run_range(pid, seed, tier, lo, hi, with_reach=True, deadline=None):
     check = load_check(pid)
     env.hg()
@@ -139,7 +150,20 @@ def run_range(pid, seed, tier, lo, hi, with_reach=True, deadline=None):
             if deadline is not None and time.time() > deadline:
                 agg.counters["cases_skipped_deadline"] += hi - i
                 break
-            res = run_one(check, seed, tier, i)
+            import signal
+
+            signal.signal(signal.SIGALRM, _alarm)
+            signal.alarm(CASE_TIMEOUT)
+            try:
+                res = run_one(check, seed, tier, i)
+            except CaseTimeout:
+                # a watchdog, not a verdict: counted and reported as inconclusive
+                agg.evaluations += 1
+                agg.counters["case_timeouts"] += 1
+                agg.sets["case_timeout_indexes"].add(str(i))
+                continue
+            finally:
+                signal.alarm(0)
             if "harness_error" in res:
                 agg.evaluations += 1
                 if len(agg.harness_errors) < 5:
@@ -244,6 +268,8 @@ def finish(check, pid, tier, seed, agg, funcs, lines, inconclusive, t0):
         inconclusive.append("anchored functions never reached: %s" % ", ".join(miss[:10]))
     if agg.harness_errors:
         inconclusive.append("%d harness errors (first: %s)" % (agg.counters["harness_errors"], agg.harness_errors[0]["traceback"].strip().splitlines()[-1]))
+    if agg.counters.get("case_timeouts"):
+        inconclusive.append("%d cases hit the per-case watchdog (%ds): %s" % (agg.counters["case_timeouts"], CASE_TIMEOUT, ", ".join(sorted(agg.sets.get("case_timeout_indexes", ()))[:8])))
     if agg.counters.get("cases_skipped_deadline"):
         # not a verdict: report what was covered; only inconclusive when almost nothing ran
         pass
